@@ -8,8 +8,9 @@ ground fluents.
   (quality metrics are accepted and ignored: the engine only claims `OptimalityGuarantee.SATISFICING`);
 * `UNSOLVABLE_PROVEN` is returned only after the whole reachable state space has been exhausted (the queue ran
   empty): every reachable state was expanded with every applicable ground action instance;
-* if more than `max_states` distinct states are generated (unbounded numeric fluents), the search stops with
-  `UNSOLVABLE_INCOMPLETELY` -- it never claims a proof it does not have;
+* if more than `max_states` distinct states are generated, or a numeric fluent exceeds 10**9 in absolute value
+  (unbounded numeric fluents), the search stops with `UNSOLVABLE_INCOMPLETELY` -- it never claims a proof it does not
+  have;
 * a problem the simulator cannot set up (initial state violating bounded types / invariants, unsupported kind)
   gives `UNSUPPORTED_PROBLEM`.
 
@@ -77,6 +78,17 @@ def state_key(state, gfe):
         except up.exceptions.UPStateMissingFluentError:
             vals.append(None)
     return tuple(vals)
+
+
+MAGNITUDE = 10 ** 9
+
+
+def too_big(key):
+    """a numeric fluent left every reasonable range (x := x * x ...): the state space is treated as unbounded"""
+    for v in key:
+        if v is not None and (v.is_int_constant() or v.is_real_constant()) and abs(v.constant_value()) > MAGNITUDE:
+            return True
+    return False
 
 
 class BFSPlanner(Engine, mixins.OneshotPlannerMixin):
@@ -164,7 +176,7 @@ class BFSPlanner(Engine, mixins.OneshotPlannerMixin):
                 nk = state_key(nxt, gfe)
                 if nk in seen:
                     continue
-                if len(seen) >= self.max_states:
+                if len(seen) >= self.max_states or too_big(nk):
                     rec["states"] = len(seen)
                     return done(PlanGenerationResultStatus.UNSOLVABLE_INCOMPLETELY)
                 seen[nk] = (k, (a, args))
